@@ -53,6 +53,24 @@ CMPS = {
 }
 
 
+def _clz(bits):
+    def f(x):
+        x &= (1 << bits) - 1
+        if x == 0:
+            raise ValueError("clz(0) is undefined")
+        return bits - x.bit_length()
+    return f
+
+
+PURE_BUILTINS = {
+    "__builtin_clz": _clz(32), "__builtin_clzl": _clz(64), "__builtin_clzll": _clz(64),
+    "__builtin_popcount": lambda x: bin(x & 0xffffffff).count("1"),
+    "__builtin_popcountl": lambda x: bin(x & (2 ** 64 - 1)).count("1"),
+    "__builtin_popcountll": lambda x: bin(x & (2 ** 64 - 1)).count("1"),
+    "abs": abs, "labs": abs, "llabs": abs,
+}
+
+
 class Outcome:
     __slots__ = ("kind", "ret", "store", "events", "decisions", "cons")
 
@@ -338,6 +356,8 @@ class Explorer:
     # ---- main entry ------------------------------------------------------
     def run(self, f, args, store, events=(), depth=0, cons=()):
         """args: list of values for the parameters (missing = TOP)."""
+        if depth == 0:
+            self.paths = 0          # the path budget is per top-level exploration
         self.frame_counter += 1
         fid = self.frame_counter
         store = dict(store)
@@ -719,6 +739,9 @@ class Explorer:
         if k == "UnaryOperator":
             op = n["op"]
             if op == "&":
+                sn = f.nodes[f.strip(c[0])]
+                if sn["k"] == "DeclRefExpr" and sn.get("dk") == "fn":
+                    return ("fn", sn["name"])
                 loc = self.L(f, fid, c[0], st)
                 return PTR(loc[0], loc[1]) if loc is not None else TOP
             if op == "*":
@@ -806,6 +829,14 @@ class Explorer:
                 return PTR(a[1], a[2][:-1] + (a[2][-1] + (b[1] if op == "+" else -b[1]),))
             if op == "+" and a[0] == "ptr" and b[0] == "lin" and a[2]:
                 return self._ptr_add(a, b)
+            if op == "-" and a[0] == "ptr" and b[0] == "int" and a[2] and isinstance(a[2][-1], tuple) \
+                    and len(a[2][-1]) == 2 and isinstance(a[2][-1][0], str):
+                # container_of idiom: (char *) &obj->field - offsetof(type, field)
+                rec = self.prog.records.get(a[2][-1][0])
+                if rec is not None:
+                    for fld in rec["fields"]:
+                        if fld["name"] == a[2][-1][1] and fld["offbits"] // 8 == b[1]:
+                            return PTR(a[1], a[2][:-1])
             if op in ARITH and a[0] == "int" and b[0] == "int":
                 r = ARITH[op](a[1], b[1])
                 return TOP if r is None else INT(r)
@@ -1019,6 +1050,11 @@ class Explorer:
             fv = self.V(f, fid, n["fnexpr"], st)
             if fv[0] == "fn":
                 cal = fv[1]
+        if cal in PURE_BUILTINS and cal not in self.summaries and all(a[0] == "int" for a in args):
+            try:
+                return [(INT(PURE_BUILTINS[cal](*[a[1] for a in args])), st.store, st.events, st.cons)]
+            except Exception:
+                pass
         ev = ("call", cal, tuple(args), f.key, e)
         if self.merge:
             self.event_log.append(ev)
@@ -1036,6 +1072,12 @@ class Explorer:
                     out.append((ret, s2, st.events if self.merge else st.events + (ev,), cons2))
                 return out
         d = self.prog.resolve(f, cal) if cal else None
+        if d is None and cal and n.get("callee") is None:
+            # call through a function pointer whose value is known: the target may be a static
+            # function of another unit
+            cands = self.prog.by_name.get(cal, [])
+            if len(cands) == 1:
+                d = cands[0]
         if d is None and cal in self.prog.noreturn_names:
             return None
         if d is not None and (d.noreturn or d.declared_noreturn):
